@@ -14,8 +14,27 @@ import (
 // point) and logs one `A` line. Unacknowledged deliveries survive a crash.
 type entry struct {
 	data []byte
+	obj  any // object mode (a custom in-memory queue bound with WithQueue that also acknowledges): the job itself
 	prio int
 	seq  int
+}
+
+// label of an entry in the A lines: the payload number
+func (e entry) label() string {
+	if e.obj != nil {
+		if d, ok := e.obj.(interface{ Data() int }); ok {
+			return fmt.Sprint(d.Data())
+		}
+		return "obj"
+	}
+	return payloadOf(e.data)
+}
+
+func (e entry) item() any {
+	if e.obj != nil {
+		return e.obj
+	}
+	return e.data
 }
 
 type adapter struct {
@@ -35,6 +54,7 @@ type adapter struct {
 	calls   int
 	crashAt int  // simulate process death when this many adapter calls have been made (0 = never)
 	hold    func() bool // when set: Acknowledge blocks until it returns true (a slow backend)
+	objMode bool        // stores the job objects themselves (WithQueue with an acknowledging in-memory queue)
 }
 
 func newAdapter(id int, prio bool, faults []Fault) *adapter {
@@ -132,16 +152,20 @@ func (a *adapter) enqueue(item any, prio int) bool {
 	rt.Yield()
 	a.nEnq++
 	b, ok := item.([]byte)
+	en := entry{data: b, prio: prio, seq: a.seq}
+	if a.objMode && !ok {
+		en.obj, ok = item, true
+	}
 	if !ok || a.closed || a.fault("enq", a.nEnq) {
 		a.log("enq", "?", "false")
 		return false
 	}
-	a.pending = append(a.pending, entry{data: b, prio: prio, seq: a.seq})
+	a.pending = append(a.pending, en)
 	a.seq++
 	if a.prio {
 		sort.SliceStable(a.pending, func(i, j int) bool { return a.pending[i].prio < a.pending[j].prio })
 	}
-	a.log("enq", payloadOf(b), "true")
+	a.log("enq", en.label(), "true")
 	subs := a.subs
 	for _, s := range subs {
 		rt.Yield()
@@ -177,8 +201,8 @@ func (a *adapter) DequeueWithAckId() (any, bool, string) {
 	id := fmt.Sprintf("ack%d-%d", a.id, e.seq)
 	a.unacked[id] = e
 	a.order = append(a.order, id)
-	a.log("deq", payloadOf(e.data), id)
-	return e.data, true, id
+	a.log("deq", e.label(), id)
+	return e.item(), true, id
 }
 
 func (a *adapter) Acknowledge(ackID string) bool {
@@ -194,7 +218,7 @@ func (a *adapter) Acknowledge(ackID string) bool {
 	}
 	delete(a.unacked, ackID)
 	a.acked = append(a.acked, ackID)
-	a.log("ack", ackID, "true "+payloadOf(e.data))
+	a.log("ack", ackID, "true "+e.label())
 	return true
 }
 
@@ -202,7 +226,7 @@ func (a *adapter) Values() []any {
 	rt.Yield()
 	vs := make([]any, len(a.pending))
 	for i, e := range a.pending {
-		vs[i] = e.data
+		vs[i] = e.item()
 	}
 	a.log("values", "_", fmt.Sprint(len(vs)))
 	return vs
@@ -231,11 +255,11 @@ func (a *adapter) Subscribe(fn func(string)) {
 func (a *adapter) dump() {
 	var pend, un []string
 	for _, e := range a.pending {
-		pend = append(pend, payloadOf(e.data))
+		pend = append(pend, e.label())
 	}
 	for _, id := range a.order {
 		if e, ok := a.unacked[id]; ok {
-			un = append(un, id+":"+payloadOf(e.data))
+			un = append(un, id+":"+e.label())
 		}
 	}
 	rt.Log("F", "adapter", fmt.Sprintf("%d pending=[%s] unacked=[%s] acked=[%s]", a.id, strings.Join(pend, ","), strings.Join(un, ","), strings.Join(a.acked, ",")))
